@@ -20,7 +20,8 @@ RULE = ('exhaustive: every (year, form, mapping) triple is checked against the p
         'button true-values are on-states; max_length equals /MaxLen or the comb/maxChars limit; choice lists equal /Opt; no target mapped '
         'twice; same-named sibling check boxes have at most one "on" for every value of the driving line (all booleans / enum members / '
         'None enumerated); every form that can need filing has a template and mappings; every mapped line exists. Every mapping is a '
-        'distinct non-trivial case')
+        'distinct non-trivial case'
+        ' Boxes named ...yes / ...no are one question: one driving line, exactly one on for each of its values.')
 ASSUMPTIONS = ['label comparison only when the mapped line name matches ^\\d+[a-z]?$ (helper lines such as 8_gt_11 carry no label claim)',
                'data/label_exceptions.json lists reviewed widgets whose accessibility text does not label the field with the mapped line']
 
